@@ -3,7 +3,7 @@
 # certain rights in this software.
 """Fill in the value in a let-statement directly into a tree"""
 
-from jaqalpaq.error import JaqalError
+from jaqalpaq.error import JaqalError, nesting_guard
 from jaqalpaq.core.algorithm.visitor import Visitor
 from jaqalpaq.core import circuitbuilder
 from jaqalpaq.core.register import Register, NamedQubit
@@ -11,6 +11,7 @@ from jaqalpaq.core.constant import Constant
 from jaqalpaq.core.parameter import make_item_name
 
 
+@nesting_guard
 def fill_in_let(circuit, override_dict=None):
     """Fill in the value in a let-statement directly into the circuit.
 
